@@ -279,7 +279,7 @@ class Rec:
 
     __slots__ = (
         "idx", "spec", "rel", "kind", "kwargs", "reg_phase", "reg_bar", "as_pandas", "trig", "calls", "evals",
-        "raised", "retired_at", "registered", "model", "build_error",
+        "raised", "retired_at", "registered", "model", "build_error", "reset_phase", "reset_bar", "reset_live",
     )
 
     def __init__(self):
@@ -290,6 +290,9 @@ class Rec:
         self.registered = False
         self.trig = None
         self.build_error = None
+        self.reset_phase = None  # period kinds: the phase / bar in which the public reset() is called once
+        self.reset_bar = None
+        self.reset_live = None  # first bar evaluated after the reset (the re-armed trigger's first bar)
 
 
 def build_trigger(rec, state):
@@ -308,6 +311,10 @@ def build_trigger(rec, state):
 
     def action(snapshot, *args, **kw):
         rec.calls.append((state["bar"], snapshot.timestamp, args, kw))
+        if rec.reset_phase == "action" and rec.reset_live is None and state["bar"] >= rec.reset_bar:
+            # the action re-arms its own trigger: the next bar is the first bar of a freshly armed trigger
+            rec.trig.reset()
+            rec.reset_live = state["bar"] + 1
 
     kw = rec.kwargs
     k = rec.kind
@@ -364,7 +371,10 @@ class Observer:
         self.state = state
         self.bars = []
         self.late = {}
+        self.resets = {}
         for r in recs:
+            if r.reset_phase in ("before_bar", "on_bar", "after_bar"):
+                self.resets.setdefault((r.reset_bar, r.reset_phase), []).append(r)
             if r.reg_phase != "initialize":
                 self.late.setdefault((r.reg_bar, r.reg_phase), []).append(r)
 
@@ -373,6 +383,10 @@ class Observer:
             if r.trig is not None:
                 strategy.triggers.append(r.trig)
                 r.registered = True
+        for r in self.resets.get((self.state["bar"], phase), ()):
+            if r.trig is not None and r.registered and r.reset_live is None:
+                r.trig.reset()
+                r.reset_live = self.state["bar"] + (0 if phase == "before_bar" else 1)
 
     def before_bar(self, strategy, snapshot):
         self.state["bar"] = len(self.bars)
@@ -428,6 +442,10 @@ def one_run(mon, rng, c, tier):
             r.reg_phase = rng.choice(["before_bar", "on_bar", "after_bar"])
             r.reg_bar = min(nb - 1, rng.choice([0, 0, 1, 2, rng.randrange(nb), rng.randrange(nb)]))
         r.model = O.Model(r.spec)
+        if r.kind in O.PERIOD_KINDS and nb > 2 and rng.random() < 0.25:
+            # the public reset() once, somewhere in the run: from then on the trigger is a freshly armed one
+            r.reset_phase = rng.choice(["before_bar", "on_bar", "after_bar", "action"])
+            r.reset_bar = rng.choice([rng.randrange(nb), rng.randrange(nb), rng.randrange(max(1, nb // 3))])
         try:
             r.trig = build_trigger(r, state)
         except Exception as e:
@@ -520,6 +538,12 @@ def describe(r):
     return out
 
 
+def reset_note(r, rl, bars):
+    if rl is None:
+        return ""
+    return f"; reset() called in {r.reset_phase} so that bar {rl} ({bars[rl]}) is the first bar of the re-armed trigger"
+
+
 def judge(mon, r, bars, step, I, g, c):
     nb = len(bars)
     cls_name = KIND_CLASS[r.kind]
@@ -563,11 +587,22 @@ def judge(mon, r, bars, step, I, g, c):
     n_ok_fired = 0
     gap_seen = coincide_seen = False
     periodic = r.kind in O.PERIOD_KINDS
+    # a reset() before the first evaluation changes nothing; after it, the bar evaluated next is the first bar of a freshly
+    # armed trigger (immediate firing there if requested, then delay + k * period counted from it)
+    rl = r.reset_live if (r.reset_live is not None and live < r.reset_live < nb) else None
+    n_den_after_reset = 0
     for i in range(nb):
         if i == free and i != live:
             continue
         t = bars[i]
-        den = i >= live and model.denotes(t, t0)
+        if rl is not None and i >= rl:
+            periodic = False  # the gap / coincidence evidence below is counted from the first origin only
+            org, tag = bars[rl], "after-reset/"
+            den = model.denotes(t, bars[rl])
+            n_den_after_reset += den
+        else:
+            org, tag = t0, ""
+            den = i >= live and model.denotes(t, t0)
         got = calls_at.get(i, ())
         mon.ev()
         if den:
@@ -576,27 +611,29 @@ def judge(mon, r, bars, step, I, g, c):
             continue  # already reported as an early retirement
         if den and not got:
             mon.violation(
-                "actuator", cls_name, "missed-denoted-bar", O.bar_relation(model, t, t0, step),
+                "actuator", cls_name, "missed-denoted-bar", tag + O.bar_relation(model, t, org, step),
                 f"{cls_name} did not fire at bar {i} ({t}) which its specification denotes; {describe(r)}; first live bar "
-                f"{t0}; grid start {bars[0]} interval {I}min bars {nb}; fired at {[str(bars[b]) for b in sorted(calls_at)][:8]}; "
+                f"{t0}{reset_note(r, rl, bars)}; grid start {bars[0]} interval {I}min bars {nb}; fired at {[str(bars[b]) for b in sorted(calls_at)][:8]}; "
                 f"retired at bar {retired}",
                 {"run": c, "spec": describe(r)},
             )
         elif got and not den:
             mon.violation(
-                "actuator", cls_name, "fired-on-undenoted-bar", O.bar_relation(model, t, t0, step),
+                "actuator", cls_name, "fired-on-undenoted-bar", tag + O.bar_relation(model, t, org, step),
                 f"{cls_name} fired at bar {i} ({t}) which its specification does not denote; {describe(r)}; first live bar "
-                f"{t0}; grid start {bars[0]} interval {I}min bars {nb}",
+                f"{t0}{reset_note(r, rl, bars)}; grid start {bars[0]} interval {I}min bars {nb}",
                 {"run": c, "spec": describe(r)},
             )
         elif den and len(got) != 1:
             mon.violation(
-                "actuator", cls_name, "action-called-more-than-once", O.bar_relation(model, t, t0, step),
+                "actuator", cls_name, "action-called-more-than-once", tag + O.bar_relation(model, t, org, step),
                 f"{cls_name} called its action {len(got)} times at bar {i} ({t}); {describe(r)}",
                 {"run": c, "spec": describe(r)},
             )
         elif den:
             n_ok_fired += 1
+            if rl is not None and i > rl:
+                mon.hit("period/fired-on-schedule-after-reset")
         for ts, args, kw in got:
             mon.ev()
             if kw != r.kwargs or args:
@@ -639,6 +676,9 @@ def judge(mon, r, bars, step, I, g, c):
     mon.cls(f"retirement/{r.kind}/{ret}")
     if r.as_pandas:
         mon.cls("parameters-as-pandas-timestamps")
+    if rl is not None:
+        mon.cls(f"reset/{r.kind}/{r.reset_phase}/{'denoted-after' if n_den_after_reset else 'nothing-denoted-after'}")
+        mon.hit("period/reset-while-live")
     if n_den:
         mon.hit(f"fired/{r.kind}", n_ok_fired)
         mon.hit(f"triggers-with-denoted-bars/{r.kind}")
@@ -687,6 +727,8 @@ def floors(merged, tier):
         ("retired-without-firing", 20),
         ("late-registration-with-denoted-bars", 20),
         ("range-end-on-a-bar", 20),
+        ("period/reset-while-live", 20),
+        ("period/fired-on-schedule-after-reset", 20),
     ):
         if reach.get(need, 0) < lo:
             out.append(f"reach counter '{need}' below {lo}")
